@@ -41,9 +41,10 @@ from vgi_rpc.rpc import AuthContext
 PROPERTY = "C12"
 ENCODED = [st._compute_aad, st._compute_call_aad, *tc.TOKEN_FUNCS, aps._unpack_and_recover_state, aps._resolve_call_from_token, crypto.seal_bytes, crypto.open_bytes]
 BOUNDS = (
-    "(a) all identities, unbounded string lengths; (b) segments <= 3 bytes, keys/AADs <= 2 bytes, arbitrary cursor plaintexts <= 36 bytes, "
-    "arbitrary call plaintexts <= %d bytes; (c) all 64-bit created_at, unbounded integer now/ttl; (d) 2 streams x 4 identities x 6 cursor-slot x 7 call-slot "
-    "presentations x cold/warm cache x fresh/expired clock; (e) payload <= 2 bytes, tampered envelope <= 44 bytes" % pick(46, 47)
+    "(a) all identities (and method names, once bound), unbounded string lengths; (b) segments <= 3 bytes, keys/AADs <= 2 bytes, arbitrary cursor plaintexts <= 36 bytes, "
+    "arbitrary call plaintexts <= %d bytes; (c) all 64-bit created_at, unbounded integer now/ttl; (d) 2 streams, 4x4 identities, 6 cursor-slot x (absent + 7) call-slot "
+    "presentations, cold / warm cache, any request time >= /init (ttl 50); (e) payload <= 2 bytes, same/other key, aad, version byte; envelope untouched / relabelled / "
+    "any single byte substituted / any truncation / one byte appended" % pick(46, 47)
 )
 OUTSIDE = (
     "the AEAD primitive itself (bit flips / truncation of real ciphertexts are rejected by *assumption*); base64 alphabet variants (C decoder); "
